@@ -62,14 +62,21 @@ def run(chk):
             if v is not None and v["name"] == "checkpoint":
                 ckpt = l
         if ckpt is None:
+            # not under its usual name: the checkpoint routine is the one local lambda that serialises the grid (grid.write) into a file stream
+            cand = [l for l in lams if lambda_var(fn, l) is not None and stream_decls(l, "ofstream") and
+                    any(short(callee(c) or "") == "write" and "TasmanianSparseGrid" in (callee(c) or "") for c in l.calls())]
+            if len(cand) == 1:
+                ckpt = cand[0]
+        if ckpt is None:
             raise AnalysisBroken("checkpoint lambda not found in " + name)
+        ckpt_name = lambda_var(fn, ckpt)["name"]
         chk.saw(ckpt)
         # ---- D1
         reads = {p for _, p in stream_decls(fn, "ifstream")}
         recov = []          # functions (the core or a helper lambda) that contain the recovery try blocks
         for l in lams:
             v = lambda_var(fn, l)
-            if v is None or v["name"] == "checkpoint":
+            if v is None or l is ckpt:
                 continue
             lr = stream_decls(l, "ifstream")
             if not lr or not any(n.get("k") == "CXXTryStmt" for n in walk(l.body)):
